@@ -2,6 +2,7 @@ package combat
 
 import (
 	"math/rand"
+	"sort"
 
 	"github.com/simimpact/srsim/pkg/engine/info"
 	"github.com/simimpact/srsim/pkg/engine/prop"
@@ -11,7 +12,15 @@ import (
 func baseDamage(h *info.Hit) float64 {
 	dmgMap := h.BaseDamage
 	damage := 0.0
-	for k, v := range dmgMap {
+	// sum the terms in ascending formula order: float addition is not associative, so the
+	// (random) iteration order of the map must not reach the result
+	formulas := make([]model.DamageFormula, 0, len(dmgMap))
+	for k := range dmgMap {
+		formulas = append(formulas, k)
+	}
+	sort.Slice(formulas, func(i, j int) bool { return formulas[i] < formulas[j] })
+	for _, k := range formulas {
+		v := dmgMap[k]
 		switch k {
 		case model.DamageFormula_BY_ATK:
 			damage += v * h.Attacker.ATK()
